@@ -1130,10 +1130,21 @@ func (e *Env) call(x *ECall) *SVal {
 			e.fail("atomicval: %s has no field v", pt)
 		case "addr": // addr(x): the address of location x
 			return e.evalLoc(x.Args[0])
+		case "ifaceptr": // ifaceptr(x): the pointer an interface value carries (its payload), as an untyped address
+			v := e.eval(x.Args[0])
+			if v.K != KIface {
+				e.fail("ifaceptr: not an interface value")
+			}
+			return scalar(tUPtr, KInt, v.Sub[1].Term)
 		case "unbox": // unbox(x): the value held by interface x when its dynamic type is statically known
 			v := e.eval(x.Args[0])
 			if v.K != KIface {
 				e.fail("unbox: not an interface value")
+			}
+			if len(x.Args) == 2 {
+				// unbox(x, T): the value read as a T (meaningful where dyntype(x, T) holds)
+				fr := &Frame{g: g, curState: e.cur, curReach: "false"}
+				return fr.unbox(v, e.typeArg(x.Args[1]))
 			}
 			tagLit := v.Sub[0].Term
 			var tag int64 = -1
